@@ -16,7 +16,7 @@ from itertools import product
 import numpy as np
 
 from .. import circmon, qubitref as qr, tomoref
-from ..gen import equivalent_variant
+from ..gen import as_callback, equivalent_variant
 from .common import drain_into, merge_stats, setup
 
 PROPERTY = "C15"
@@ -187,7 +187,10 @@ def run(ctx):
             return out
 
         try:
-            st = tomo.StateTomography(n, base, experiment)
+            cb, cb_form = as_callback(experiment, rng)
+            ctx.bucket("callback_is_" + cb_form)
+            case["callback_form"] = cb_form
+            st = tomo.StateTomography(n, base, cb)
             rho = st.process()
             fid = st.fidelity(rho_exp)
         except Exception as e:  # noqa: BLE001
